@@ -126,6 +126,27 @@ func nearBudgetList(seed uint64, n int) []Ent {
 	return es
 }
 
+// nearBudgetN finds an entry count for which the flat gzip root directory of nearBudgetList(seed, n) is
+// strictly inside the window (16257, 16384]: larger than the root budget, not larger than the first fetch.
+func nearBudgetN(seed uint64) int {
+	size := func(n int) int { return len(pmtiles.SerializeEntries(toImpl(nearBudgetList(seed, n)), pmtiles.Gzip)) }
+	lo, hi := 2000, 16000
+	for lo < hi {
+		mid := (lo + hi) / 2
+		if size(mid) < 16320 {
+			lo = mid + 1
+		} else {
+			hi = mid
+		}
+	}
+	for n := lo; n > lo-200; n-- { // gzip sizes are not monotone in n: walk down to a size inside the window
+		if s := size(n); s > 16262 && s <= 16380 {
+			return n
+		}
+	}
+	return lo
+}
+
 // cluster_root <seed> <n> <dedup>: an unclustered archive of n badly compressing entries goes through the real
 // writer (Cluster -> finalize); header and root of the written file must lie within the first 16384 bytes and
 // root + leaves must reproduce the entries.   -> ok (oracle only)
@@ -250,16 +271,7 @@ func c05(r *rng, tier string, o *out) {
 	}
 	for c := 0; c < nd; c++ {
 		seed := r.next()
-		want := 16257 - 40 + r.intn(200) // window around (16257, 16384]
-		lo, hi := 2000, 16000
-		for lo < hi {
-			mid := (lo + hi) / 2
-			if len(pmtiles.SerializeEntries(toImpl(nearBudgetList(seed, mid)), pmtiles.Gzip)) < want {
-				lo = mid + 1
-			} else {
-				hi = mid
-			}
-		}
+		lo := nearBudgetN(seed)
 		emit(fmt.Sprintf("cluster_root %d %d %d", seed, lo, c%2), true, "cluster_root_near_budget")
 	}
 	_ = bytes.Equal
